@@ -60,7 +60,7 @@ Print Assumptions C02_organic_symbols_tokenize.
 (* ---- layer 1: bracket atoms.  atom_parse (the matcher for atom_re) inverts what _format_atom writes ---- *)
 
 (* the matcher, for every well-formed combination of the six groups of atom_re (isotope 1-3 digits not starting with 0,
-   one- or two-letter symbol, @ / @@, H / H1-H4, a charge spelling of charge_str, :1-4 digits) *)
+   one- or two-letter symbol, @ / @@, H / H1-H4, a charge spelling of charge_str, : and one or more digits) *)
 Theorem C02_parse_components : forall isoL iso symL stL st hL h chgL chg mapL mp,
   iso_comp isoL iso -> sym_comp symL -> st_comp stL st -> h_comp hL h -> chg_comp chgL chg -> map_comp mapL mp ->
   atom_parse_chars (isoL ++ symL ++ stL ++ hL ++ chgL ++ mapL) = Ok (parsed_of symL iso st h chg mp).
@@ -79,7 +79,7 @@ Print Assumptions C02_atom_body_roundtrip.
 (* the writer: whenever _format_atom (atom_fields) writes atom n of ANY molecule in brackets under ANY options, the text
    between the brackets is parsed back into the atom's element (aromatic iff written in lower case), isotope, charge
    (0 under !z), hydrogen count, the stereo mark written, and n as atom map under `m`.  The hypotheses are the ranges of
-   the reader's pattern; the two of them that real molecules can violate are the recorded findings below. *)
+   the reader's pattern; the aromatic one is violated by real molecules (recorded finding below); atom maps above 9999 are accepted by the matcher since fix 6e5bd93 (C02_parse_components covers them), the bound here is only that of the str() sweep. *)
 Theorem C02_atom_token_roundtrip : forall g o tabs n adj a f e,
   atom_of g n = Some a -> atom_fields g o tabs n adj = Ok f -> af_br f = true ->
   In e elements -> from_number (a_num a) = Some e ->
@@ -104,17 +104,18 @@ Theorem C02_atom_token_example :
 Proof. exact atom_token_example. Qed.
 Print Assumptions C02_atom_token_example.
 
-(* the hypotheses are needed: the two recorded defects of the unchanged code, as facts about the reader's matcher
-   (replayed on the implementation by the check: keys aromatic-atom-of-element-without-lowercase-symbol, atom-map-above-9999) *)
+(* the aromatic hypothesis is needed: recorded defect of the unchanged code, as a fact about the reader's matcher
+   (replayed on the implementation by the check: key aromatic-atom-of-element-without-lowercase-symbol) *)
 Theorem C02_atom_token_roundtrip_refuted_aromatic :
   exists e p, In e elements /\ atom_parse (lower_string (e_sym e)) = Ok p /\ from_symbol (p_elem p) = None.
 Proof. exact aromatic_foreign_symbol_unreadable. Qed.
 Print Assumptions C02_atom_token_roundtrip_refuted_aromatic.
 
-Theorem C02_atom_token_roundtrip_refuted_map :
-  atom_parse "CH3:10000" = Err IncorrectSmiles /\ atom_parse "CH3:9999" = Ok (mkParsed 0 "C" None (Some 9999) 0 3 None).
-Proof. exact atom_map_limit. Qed.
-Print Assumptions C02_atom_token_roundtrip_refuted_map.
+(* the second range hypothesis (atom maps) is no longer a defect: since fix 6e5bd93 the map group takes any number of digits *)
+Theorem C02_atom_map_long : atom_parse "CH3:10000" = Ok (mkParsed 0 "C" None (Some 10000) 0 3 None) /\
+                            atom_parse "CH3:123456789012" = Ok (mkParsed 0 "C" None (Some 123456789012) 0 3 None).
+Proof. exact atom_map_long. Qed.
+Print Assumptions C02_atom_map_long.
 
 (* ---- layer 2: the token stream.  _tokenize splits the concatenation of written tokens into exactly these tokens ---- *)
 
